@@ -44,6 +44,18 @@ def instrumented_queue():
     return _NS
 
 
+class FalsyError(RuntimeError):
+    def __bool__(self):
+        return False
+
+    def __len__(self):
+        return 0
+
+
+class FalsyObj(list):
+    pass
+
+
 class Task(object):
     def __init__(self, tid, kind, owner):
         self.tid, self.kind, self.owner = tid, kind, owner
@@ -54,6 +66,12 @@ class Task(object):
         self.ret = ("RET", tid)
         self.ret_obj = object()
         self.exc = RuntimeError("task %s failed" % tid)
+        if kind == "raise0":
+            self.exc = FalsyError()
+            self.kind = "raise"
+        elif kind == "ret0":
+            self.ret_obj = FalsyObj()
+            self.kind = "ret"
         self.args_seen = None
         self.enq_call = self.enq_ret = None
         self.enter_step = self.exit_step = None
@@ -461,6 +479,11 @@ CURATED = {
     "P21-stop-with-join-racing": ([("start",), ("enq", "ret"), ("spawn",), ("stop",), ("joinsub",)], [("join", BIG)]),
     "P22-backlog-then-chain": ([("enq", "ret"), ("enq", "ret"), ("enq", "ret"), ("start",), ("join", BIG), ("sleep", 61), ("chain", 0, 2), ("chain", 1, 2), ("result", "c3", BIG)], None),
     "P23-chain3": ([("start",), ("chain", 0, 3), ("chain", 1, 3), ("chain", 2, 3), ("result", "c0", BIG)], None),
+    "P29-stop-while-busy-then-restart": ([("start",), ("enq", "gated"), ("spawn",), ("stop",), ("joinsub",), ("start",), ("enq", "ret"), ("result", "c1", BIG)],
+                                         [("open", "c0")]),
+    "P30-stop-while-busy-restart-chain": ([("start",), ("enq", "gated"), ("spawn",), ("stop",), ("joinsub",), ("start",), ("chain", 0, 2), ("chain", 1, 2),
+                                           ("result", "c1", BIG)], [("open", "c0")]),
+    "P28-falsy-outcomes": ([("start",), ("enq", "raise0"), ("enq", "ret0"), ("result", "c0", BIG), ("result", "c1", BIG)], None),
     "P25-task-then-chain": ([("start",), ("enq", "ret"), ("chain", 0, 2), ("chain", 1, 2), ("result", "c2", BIG)], None),
     "P26-two-tasks-then-chain": ([("start",), ("enq", "ret"), ("enq", "raise"), ("chain", 0, 2), ("chain", 1, 2), ("result", "c3", BIG)], None),
     "P27-chain-then-task-restart": ([("start",), ("enq", "ret"), ("stop",), ("start",), ("enq", "ret"), ("chain", 0, 2), ("chain", 1, 2), ("result", "c3", BIG)], None),
